@@ -182,6 +182,10 @@ type run struct {
 	gateOf string // caller parked at gate
 	noPark bool
 	gor    map[string]string // goroutine id -> caller running in it
+
+	// scripted Park / Unpark (park_test.go)
+	parkArm  map[string]string        // caller -> scope it is to be held up in during its next call
+	parkGate map[string]chan struct{} // caller held up -> its gate
 }
 
 func goid() string {
@@ -545,7 +549,12 @@ func (r *run) step(st Step) {
 		}
 		r.fill(st.S)
 		return
-	case "Quiesced", "MailReject", "RcptReject", "MoreRcpt":
+	case "Quiesced", "MailReject", "RcptReject", "MoreRcpt", "Park":
+		return
+	case "Unpark":
+		if !r.unpark(st.M) {
+			r.skip(st, "not parked")
+		}
 		return
 	}
 	c := r.client(st.M)
@@ -594,6 +603,7 @@ func (r *run) step(st Step) {
 // holders release what they hold (domains first, as remoteDelivery.Close does).
 func (r *run) endDeliveries() {
 	r.resume(r.parked())
+	r.unparkAll()
 	for i := 0; i < 3 && len(r.pendingNames()) > 0; i++ {
 		r.tick()
 	}
@@ -726,8 +736,13 @@ func runBehaviour(t *testing.T, b Behaviour, w *bufio.Writer) {
 		}
 		r := &run{t: t, b: b, g: g, tr: tr, cl: map[string]*client{}}
 		r.installYield()
-		for _, st := range b.Hist {
+		r.installPark()
+		for i, st := range b.Hist {
+			r.arm(i)
 			r.step(st)
+			if st.M != "" && st.A != "Park" {
+				r.disarm(st.M)
+			}
 		}
 		r.endDeliveries()
 		if b.Probe {
